@@ -41,6 +41,7 @@ func runUnlikely(c Case, e *env) []Event {
 		attrP      string
 		attrR      string
 		tag        string
+		inl        string // words used when the marker sits on an inline element
 	}
 	var marks []mk
 	for _, x := range c.list("marks") {
@@ -93,20 +94,36 @@ func runUnlikely(c Case, e *env) []Event {
 			inner = "<li>" + inner + "</li>"
 		}
 		marks[i].body = inner
+		marks[i].inl = g.words(4)
+	}
+	// two bare text runs (no paragraph around them) for the inline / bare placements
+	lead1, lead2 := g.words(45), g.words(45)
+	blockOf := func(m mk, variant string) string {
+		body := m.body
+		if m.tag == "span" {
+			body = m.inl
+		}
+		switch variant {
+		case "D":
+			return ""
+		case "R":
+			return "<" + m.tag + m.attrR + ">" + body + "</" + m.tag + ">"
+		}
+		return "<" + m.tag + m.attrP + ">" + body + "</" + m.tag + ">"
 	}
 	assemble := func(variant string) string {
-		block := func(m mk) string {
-			switch variant {
-			case "D":
-				return ""
-			case "R":
-				return "<" + m.tag + m.attrR + ">" + m.body + "</" + m.tag + ">"
-			}
-			return "<" + m.tag + m.attrP + ">" + m.body + "</" + m.tag + ">"
-		}
-		var before, after, nested, sibling, between strings.Builder
+		block := func(m mk) string { return blockOf(m, variant) }
+		var before, after, nested, sibling, between, inline, bare strings.Builder
 		for _, m := range marks {
 			switch m.where {
+			case "inline":
+				// a marked inline element in the middle of running text (span, small word count)
+				im := m
+				im.tag = "span"
+				inline.WriteString(" " + blockOf(im, variant) + " ")
+			case "bare":
+				// a marked block between two bare text runs of one parent
+				bare.WriteString(blockOf(m, variant))
 			case "before":
 				before.WriteString(block(m))
 			case "after":
@@ -119,7 +136,14 @@ func runUnlikely(c Case, e *env) []Event {
 				between.WriteString(block(m))
 			}
 		}
-		story := `<div>` + half1 + nested.String() + `</div>` + between.String()
+		run1, run2 := "", ""
+		for _, m := range marks {
+			if m.where == "inline" || m.where == "bare" {
+				run1, run2 = lead1, lead2
+			}
+		}
+		// white space around the marked element: deleting it must not glue the neighbouring words
+		story := `<div>` + run1 + " " + inline.String() + bare.String() + " " + run2 + half1 + nested.String() + `</div>` + between.String()
 		if half2 != "" {
 			story += `<div>` + half2 + `</div>`
 		}
